@@ -23,6 +23,10 @@ type InterfaceMethod struct {
 	Name    string
 	Inputs  []InterfaceType
 	Outputs []InterfaceType
+
+	// PkgPath is the package of an unexported method ("" for exported methods):
+	// unexported methods of different packages are different methods
+	PkgPath string
 }
 
 // InterfaceType
@@ -134,10 +138,19 @@ func extractMethodsFromInterface(iface *types.Interface) []InterfaceMethod {
 			Name:    method.Name(),
 			Inputs:  extractTypesFromTuple(sig.Params(), sig.Variadic()),
 			Outputs: extractTypesFromTuple(sig.Results(), false),
+			PkgPath: unexportedMethodPackage(method),
 		})
 	}
 
 	return methods
+}
+
+// unexportedMethodPackage returns the package path of an unexported method, "" for exported ones
+func unexportedMethodPackage(method *types.Func) string {
+	if method.Exported() || method.Pkg() == nil {
+		return ""
+	}
+	return method.Pkg().Path()
 }
 
 // extractTypesFromTuple converts types.Tuple to InterfaceType slice
